@@ -34,7 +34,11 @@ func PackValues(format string, values []rt.Value, budget uint64) (string, uint64
 		budget: budget,
 	}
 	for p.hasNext() {
-		switch c := p.nextOption(); c {
+		c := p.nextOptionAfterX()
+		if p.err != nil {
+			return "", p.used, p.err
+		}
+		switch c {
 		case '<':
 			p.byteOrder = binary.LittleEndian
 		case '>':
